@@ -958,7 +958,10 @@ func (x *seqExec) doGC(op Op) {
 	if x.gcHook != nil {
 		x.gcHook("before", op, 0, 0)
 	}
-	begin, end, err := g.H.GC(b, op.GCStart, op.GCEnd, op.GCDays, op.Merge, op.Pretend)
+	begin, end, err := gcRequest(g, x.plan.Cfg.GCWeb, b, op.GCStart, op.GCEnd, op.GCDays, op.Merge, op.Pretend)
+	if x.plan.Cfg.GCWeb {
+		x.out.probe("gc-request-via-web-handler")
+	}
 	g.W.TagNext = ""
 	if err != nil || op.Pretend {
 		g.W.WaitIdle()
@@ -1037,7 +1040,7 @@ func (x *seqExec) doGC(op Op) {
 		n2 := g.W.NumTasks()
 		g.W.Advance(2 * time.Second)
 		g.W.TagNext = "gc"
-		_, _, err2 := g.H.GC(b, begin, end, op.GCDays, op.Merge, false)
+		_, _, err2 := gcRequest(g, x.plan.Cfg.GCWeb, b, begin, end, op.GCDays, op.Merge, false)
 		g.W.TagNext = ""
 		if err2 == nil {
 			if !g.W.WaitCondTimeout("gc2-done", 2*time.Hour, func() bool { return g.W.TasksDone("store.gcMgr.gc", n2) }) {
